@@ -13,6 +13,14 @@ type EntryMetadata[MetadataT any] struct {
 	Object      MetadataT `json:"object"`
 }
 
+// snapshot returns a copy of the metadata for handing out to callers. The cache keeps updating its own
+// record under the key lock (LastAccess on every hit, Expires on a revalidation); callers read theirs
+// without any lock, so they must not share it.
+func (m *EntryMetadata[MetadataT]) snapshot() *EntryMetadata[MetadataT] {
+	c := *m
+	return &c
+}
+
 type EntryData interface {
 	io.ReadSeekCloser
 	io.ReaderAt
